@@ -154,6 +154,10 @@ def run(ctx):
                    "frame_revisits": revisits, "frame_revisits_after_a_setting_change": setting_changes_then_revisit,
                    "deterministic_frame_faults": sum(1 for c in cases if c.get("ffaults"))}
     extra = {}
+    dd = run_draw_decisions(ctx)
+    extra["draw_cache_decisions"] = dd["summary"]
+    failures += dd["failures"]
+    errors += dd["errors"]
     img = run_image_pairs(ctx)
     if img is not None:
         extra["image_iterator_pairs"] = img["summary"]
@@ -191,6 +195,40 @@ def run(ctx):
         "trusted": ["impl driver (shared with C08): call stamps written into the render output identify the "
                     "_render_ invocation that produced a delivered frame"],
     }
+
+
+def run_draw_decisions(ctx):
+    """draw()/_animate_'s caching decision (theorems C09_animate_cache, C09_cache_decision): an
+    animation is cached iff it is not a single loop and cache is True or an integer >= the frame
+    count; with the cache in force no frame is rendered a second time, without it every pass
+    renders every frame again.  The render log of the real draw() is compared with that rule."""
+    cases = []
+    for n in (2, 3, 5):
+        for loops in (-1, 1, 2, 3):
+            for cache in (True, False, n - 1, n, n + 1):
+                c = {"n": n, "loops": loops, "cache": cache}
+                if loops < 0:
+                    c["stop"] = 3 * n + 1  # infinite: Ctrl-C during the (3n+1)-th wait
+                cases.append(c)
+    try:
+        res = core.run_impl_parallel("impl_c09_draw.py", cases)
+    except Exception as e:  # noqa: BLE001
+        return {"summary": {}, "failures": [], "errors": [f"draw-decision driver failed: {e}"[:800]]}
+    failures = []
+    for c, r in zip(cases, res):
+        n, loops, cache = c["n"], c["loops"], c["cache"]
+        cached = loops != 1 and (cache is True or (not isinstance(cache, bool) and n <= cache))
+        shown = n * loops if loops > 0 else c["stop"] + 1  # frames requested from the iterator
+        want = [i % n for i in range(shown)]
+        if cached:
+            want = want[:n]
+        if r["ended"] != "returned" or r["renders"] != want:
+            failures.append({"signature": core.sig(["draw-cache", c]),
+                             "what": f"draw(loops={loops}, cache={cache}) of a {n}-frame animation rendered frames {r['renders']} "
+                                     f"({r['ended']}); the documented caching decision (cached={cached}) gives {want}",
+                             "replay": {"draw_case": c, "observed": r}})
+    return {"summary": {"draw_calls": len(cases), "cached_by_rule": sum(1 for c in cases if c["loops"] != 1 and (c["cache"] is True or (not isinstance(c["cache"], bool) and c["n"] <= c["cache"])))},
+            "failures": failures, "errors": []}
 
 
 def run_image_pairs(ctx):
